@@ -515,20 +515,8 @@ KNOWN_MECHS = [b"EXTERNAL", b"DBUS_COOKIE_SHA1", b"ANONYMOUS"]
 
 
 def load_known():
-    k = {e["id"]: e for e in vlib.load_known("C08")}
-    # entries proposed by this package that are not merged into known-findings.json yet (an id the shared file knows wins,
-    # whatever its status there)
-    shared = set()
-    try:
-        shared = set(e.get("id") for e in json.load(open(os.path.join(vlib.VERIF, "known-findings.json"))) if e.get("property") == "C08")
-    except (OSError, ValueError):
-        pass
-    f = os.path.join(vlib.VERIF, "notes", "C08.findings.json")
-    if os.path.exists(f):
-        for e in json.load(open(f)):
-            if e.get("property") == "C08" and e.get("status") == "known" and e["id"] not in shared:
-                k[e["id"]] = e
-    return k
+    """recorded findings of this property (known-findings.json only)"""
+    return {e["id"]: e for e in vlib.load_known("C08")}
 
 
 def fed_bytes(c, p):
